@@ -13,7 +13,7 @@ import (
 func init() {
 	register("C18", Meta{
 		Explanation: "Structural necessary conditions of the oracle quorum: (distinct) the append to Attestation.Votes is guarded by a 'not yet present' membership test whose provenance contains both that record's Votes and the appended operator, so a validator that reports twice in an epoch is counted once; (quorum) the attestation handler is invoked only under power.GTE(A*total/B) with A/B >= 66/100 (powers from GetLastValidatorPower per vote, total from GetLastTotalPower) and under currentEpoch > claim epoch; the epoch processor is called only from the end blocker under height % 5 == 0; both message handlers reach the claim recorder only for an existing validator and under currentEpoch == msg epoch; (writers) the price and holder stores are written only by the handler and InitGenesis, the epoch only by the epoch processor (+1) and InitGenesis; (holders-threshold) a holder list is adopted only under tally > MaxUint16*2/3, with the tally keyed by the content hash of the reported list and increased by the reporting validator's normalised power; (median-shape) each stored price is taken from the middle of the power-weighted, sorted value list (mean of the two middle elements for an even count).",
-		NotDecided: []string{"that the stored price is the weighted median as a numeric fact", "normalisation rounding of powers to MaxUint16", "claims of validators that unbond inside an epoch"},
+		NotDecided:  []string{"that the stored price is the weighted median as a numeric fact", "normalisation rounding of powers to MaxUint16", "claims of validators that unbond inside an epoch"},
 		Assumptions: commonAssumptions,
 	}, checkC18)
 }
@@ -35,69 +35,7 @@ func checkC18(c *Ctx) {
 		r.Bad("C18.distinct", "append-count", "-", sprintf("%d appends to Attestation.Votes, expected exactly one", len(apps)))
 	}
 	for _, st := range apps {
-		call := st.Val.(*ssa.Call)
-		var appended ssa.Value
-		if len(call.Call.Args) == 2 {
-			appended = call.Call.Args[1]
-		}
-		la := p.Leaves(appended, ana.PVOpt{Opaque: func(d ana.CalleeDesc) bool { return d.Name == "GetOperator" || d.Name == "Validator" }})
-		// the membership atom: a condition (comparison or helper call) whose provenance has the record's Votes and the operator
-		member := func(cd ana.Cond) (bool, bool) {
-			var vals []ssa.Value
-			if cd.Op == token.ILLEGAL {
-				call, _ := ana.UnwrapCall(cd.X)
-				if call == nil {
-					// a boolean flag computed by a loop: phi
-					vals = append(vals, cd.X)
-				} else {
-					vals = append(vals, ana.CallOf(call).Args...)
-				}
-			} else {
-				vals = append(vals, cd.X, cd.Y)
-			}
-			hasVotes, hasOp := false, false
-			for _, v := range vals {
-				l := p.Leaves(v, ana.PVOpt{Opaque: func(d ana.CalleeDesc) bool { return d.Name == "GetOperator" || d.Name == "Validator" }})
-				if l.HasField("Attestation.Votes") {
-					hasVotes = true
-				}
-				for lab := range l.Leaves {
-					if la.Leaves[lab] && strings.HasPrefix(lab, "call:") {
-						hasOp = true
-					}
-				}
-			}
-			if !(hasVotes && hasOp) {
-				return false, false
-			}
-			// polarity: "present" forms vs "absent" forms
-			switch cd.Op {
-			case token.EQL:
-				return false, true // vote == operator -> present; atom (absent) holds on false
-			case token.NEQ:
-				return true, true
-			}
-			// helper call / flag: named contains/has/found => true means present
-			return false, true
-		}
-		// loop-and-compare idiom: leaving the range over the votes without a match also means "absent"
-		exhausted := ana.AtomCmp(func(op token.Token, x, y ssa.Value) (bool, bool) {
-			if op != token.LSS {
-				return false, false
-			}
-			lc, ok := y.(*ssa.Call)
-			if !ok {
-				return false, false
-			}
-			if b, ok := lc.Call.Value.(*ssa.Builtin); !ok || b.Name() != "len" {
-				return false, false
-			}
-			if !p.Leaves(lc.Call.Args[0], ana.PVOpt{}).HasField("Attestation.Votes") {
-				return false, false
-			}
-			return false, true
-		})
-		ok := ana.Guarded(st, member, exhausted) && len(ana.IfsUsing(st.Parent(), func(cd ana.Cond) bool { _, m := member(cd); return m })) > 0
+		ok := c.voteAppendDistinct(st)
 		r.Check(ok, "C18.distinct", fname(st.Parent()), c.pos(st), "vote append guarded by 'operator not yet in the attestation's votes'",
 			"a validator's vote is appended to the attestation without testing that it is not already there: a validator that reports twice in an epoch is counted twice in the quorum, in the median weights and in the holders tally")
 	}
@@ -429,4 +367,72 @@ func (c *Ctx) checkMedian(h *ssa.Function) {
 				sprintf("the stored price is not taken from the middle of the sorted, power-weighted value list (form=%v sorted=%v middle indexes=%v): %s", okForm, okSort, okIdx, ex))
 		}
 	}
+}
+
+// voteAppendDistinct: the append of a vote is guarded by a membership test on the record's votes.
+func (c *Ctx) voteAppendDistinct(st *ssa.Store) bool {
+	p := c.P
+	call := st.Val.(*ssa.Call)
+	var appended ssa.Value
+	if len(call.Call.Args) == 2 {
+		appended = call.Call.Args[1]
+	}
+	la := p.Leaves(appended, ana.PVOpt{Opaque: func(d ana.CalleeDesc) bool { return d.Name == "GetOperator" || d.Name == "Validator" }})
+	// the membership atom: a condition (comparison or helper call) whose provenance has the record's Votes and the operator
+	member := func(cd ana.Cond) (bool, bool) {
+		var vals []ssa.Value
+		if cd.Op == token.ILLEGAL {
+			call, _ := ana.UnwrapCall(cd.X)
+			if call == nil {
+				// a boolean flag computed by a loop: phi
+				vals = append(vals, cd.X)
+			} else {
+				vals = append(vals, ana.CallOf(call).Args...)
+			}
+		} else {
+			vals = append(vals, cd.X, cd.Y)
+		}
+		hasVotes, hasOp := false, false
+		for _, v := range vals {
+			l := p.Leaves(v, ana.PVOpt{Opaque: func(d ana.CalleeDesc) bool { return d.Name == "GetOperator" || d.Name == "Validator" }})
+			if l.HasField("Attestation.Votes") {
+				hasVotes = true
+			}
+			for lab := range l.Leaves {
+				if la.Leaves[lab] && strings.HasPrefix(lab, "call:") {
+					hasOp = true
+				}
+			}
+		}
+		if !(hasVotes && hasOp) {
+			return false, false
+		}
+		// polarity: "present" forms vs "absent" forms
+		switch cd.Op {
+		case token.EQL:
+			return false, true // vote == operator -> present; atom (absent) holds on false
+		case token.NEQ:
+			return true, true
+		}
+		// helper call / flag: named contains/has/found => true means present
+		return false, true
+	}
+	// loop-and-compare idiom: leaving the range over the votes without a match also means "absent"
+	exhausted := ana.AtomCmp(func(op token.Token, x, y ssa.Value) (bool, bool) {
+		if op != token.LSS {
+			return false, false
+		}
+		lc, ok := y.(*ssa.Call)
+		if !ok {
+			return false, false
+		}
+		if b, ok := lc.Call.Value.(*ssa.Builtin); !ok || b.Name() != "len" {
+			return false, false
+		}
+		if !p.Leaves(lc.Call.Args[0], ana.PVOpt{}).HasField("Attestation.Votes") {
+			return false, false
+		}
+		return false, true
+	})
+	return ana.Guarded(st, member, exhausted) && len(ana.IfsUsing(st.Parent(), func(cd ana.Cond) bool { _, m := member(cd); return m })) > 0
 }
